@@ -1,41 +1,54 @@
 #!/bin/bash
-# usage: seedtest.sh <ID> <variant> [check-ids...]   -- validates a seeded change and runs checks against it
+# usage: [TIER=quick] seedtest.sh <ID> <variant> [check-ids...]
+# Validates a seeded change (suite still green, demo fails with / passes without) in a scratch worktree of /repo
+# and runs the given checks against that worktree (VERIF_REPO), never touching /repo itself.
 # expects /tmp/seed/out/<ID>/<variant>/{patch.diff,demo_test.go,notes.md} or /verif/seeded/<ID>-<variant>/
 export GOFLAGS=-mod=mod GOPROXY=off GOSUMDB=off GOTOOLCHAIN=local
 ID=$1; V=$2; shift 2; CHECKS=${@:-$ID}
 D=/verif/seeded/$ID-$V
 mkdir -p $D
 if [ -d /tmp/seed/out/$ID/$V ]; then cp /tmp/seed/out/$ID/$V/* $D/; fi
-WT=/tmp/seedchk-$ID-$V
+TAG=seed-$ID-$V
+WT=/tmp/$TAG
 git -C /repo worktree remove --force $WT 2>/dev/null
 git -C /repo worktree add -q --detach $WT HEAD || exit 2
 pkg=$(head -1 $D/demo_test.go | sed -n 's/.*copy to: *\([^ ]*\).*/\1/p'); pkg=${pkg%/}
-echo "demo package: $pkg"
 cd $WT
 git apply $D/patch.diff || { echo "PATCH DOES NOT APPLY"; git -C /repo worktree remove --force $WT; exit 2; }
 (cd luahelper-lsp && go build ./... ) || echo "BUILD FAILS"
-suite=$(cd luahelper-lsp && go test -vet=off -count=1 ./... 2>&1 | grep -c "^FAIL\|^---  FAIL\|^--- FAIL")
-echo "suite failures with change: $suite"
+suite=$(cd luahelper-lsp && go test -vet=off -count=1 ./... 2>&1 | grep -c "^FAIL\|^--- FAIL")
+tests="$(grep -o 'func Test[A-Za-z0-9_]*' $D/demo_test.go | sed 's/func //' | paste -sd'|')"
 cp $D/demo_test.go $WT/$pkg/zz_seed_demo_test.go
-(cd $WT/$pkg && go test -vet=off -count=1 -run "$(grep -o 'func Test[A-Za-z0-9_]*' zz_seed_demo_test.go | sed 's/func //' | paste -sd'|')" . >/tmp/seed-demo-with.log 2>&1); with=$?
+(cd $WT/$pkg && go test -vet=off -count=1 -run "$tests" . >/tmp/$TAG-demo-with.log 2>&1); with=$?
 git apply -R $D/patch.diff
-(cd $WT/$pkg && go test -vet=off -count=1 -run "$(grep -o 'func Test[A-Za-z0-9_]*' zz_seed_demo_test.go | sed 's/func //' | paste -sd'|')" . >/tmp/seed-demo-without.log 2>&1); without=$?
-echo "demo exit with change: $with (want !=0); without: $without (want 0)"
-cd /; git -C /repo worktree remove --force $WT
-# run our checks against it
-if [ -n "$(git -C /repo status --porcelain --untracked-files=no)" ]; then echo "/repo not clean"; exit 2; fi
-git -C /repo apply $D/patch.diff
+(cd $WT/$pkg && go test -vet=off -count=1 -run "$tests" . >/tmp/$TAG-demo-without.log 2>&1); without=$?
+rm -f $WT/$pkg/zz_seed_demo_test.go
+git apply $D/patch.diff
+echo "[$ID-$V] suite failures with change: $suite; demo exit with change: $with (want !=0); without: $without (want 0)"
 res=""
-for c in $CHECKS; do
-  /verif/run.sh $c ${TIER:-quick} > /tmp/seed-check-$c.log 2>&1; rc=$?
-  nv=$(grep -c '^VIOLATION' /tmp/seed-check-$c.log)
-  echo "check $c ${TIER:-quick}: exit=$rc violations_lines=$nv : $(grep '^  signature' /tmp/seed-check-$c.log | sort | uniq -c | sort -rn | head -3 | tr '\n' ';')"
+export VERIF_REPO=$WT VERIF_ALT_TAG=$TAG VERIF_OUT=/tmp/$TAG-out
+mkdir -p $VERIF_OUT
+if sh /verif/build.sh > /tmp/$TAG-build.log 2>&1; then
+ for c in $CHECKS; do
+  /verif/bin/vcheck-$TAG run $c --tier ${TIER:-quick} > /tmp/$TAG-check-$c.log 2>&1; rc=$?
+  nv=$(grep -c '^VIOLATION' /tmp/$TAG-check-$c.log)
+  echo "[$ID-$V] check $c ${TIER:-quick}: exit=$rc violation_lines=$nv : $(grep '^  signature' /tmp/$TAG-check-$c.log | sort | uniq -c | sort -rn | head -3 | tr '\n' ';')"
   res="$res\"$c\": {\"tier\": \"${TIER:-quick}\", \"exit\": $rc, \"violation_lines\": $nv},"
-done
-git -C /repo checkout -- .
-cat > $D/meta.json <<EOM
-{"property": "$ID", "variant": "$V", "suite_failures_with_change": $suite, "demo_exit_with_change": $with, "demo_exit_without_change": $without,
- "needs": $(python3 -c "import json,sys;print(json.dumps(open('$D/notes.md').read()[:1500]))"),
- "checks": {${res%,}}, "ran": "tools/seedtest.sh $ID $V $CHECKS"}
-EOM
-# restore evidence of the unchanged tree is the caller's job (re-run the checks)
+ done
+else
+ echo "[$ID-$V] framework build failed against the changed tree"; tail -5 /tmp/$TAG-build.log
+fi
+cd /; git -C /repo worktree remove --force $WT; rm -rf /verif/bin/vcheck-$TAG /verif/.build/$TAG $VERIF_OUT
+python3 - "$D" "$ID" "$V" "$suite" "$with" "$without" "{${res%,}}" "$CHECKS" <<'PY'
+import json,sys,os
+D,ID,V,suite,w,wo,res,checks=sys.argv[1:9]
+meta={}
+p=os.path.join(D,'meta.json')
+if os.path.exists(p):
+    try: meta=json.load(open(p))
+    except Exception: meta={}
+meta.update({"property":ID,"variant":V,"suite_failures_with_change":int(suite),"demo_exit_with_change":int(w),"demo_exit_without_change":int(wo),
+ "needs_to_manifest":open(os.path.join(D,'notes.md')).read()[:2000],"ran":"tools/seedtest.sh %s %s %s"%(ID,V,checks)})
+meta.setdefault("checks",{}).update(json.loads(res))
+json.dump(meta,open(p,'w'),indent=1)
+PY
